@@ -269,6 +269,7 @@ var (
 	errInvalidDstIA                  = errors.New("invalid destination ISD-AS")
 	errInvalidSrcAddrForTransit      = errors.New("invalid source address for transit pkt")
 	errInvalidDstAddr                = errors.New("invalid destination address")
+	errInvalidSrcAddr                = errors.New("invalid source address")
 	errCannotRoute                   = errors.New("cannot route, dropping pkt")
 	errEmptyValue                    = errors.New("empty value")
 	errMalformedPath                 = errors.New("malformed path content")
@@ -1693,6 +1694,10 @@ func (p *scionPacketProcessor) validateSrcHost() disposition {
 		return pForward
 	}
 	src, err := p.scionLayer.SrcAddr()
+	if err == nil && src.Type() != addr.HostTypeIP {
+		// A service address cannot be the source of a packet (and src.IP() would panic).
+		err = errInvalidSrcAddr
+	}
 	if err == nil && src.IP().Is4In6() {
 		err = ErrUnsupportedV4MappedV6Address
 	}
